@@ -219,9 +219,9 @@ def gen_moderate_tangent(op):
         t = []
         for kind, n in gd.tparts:
             if kind == "lin": t += [Fr(g.r.randint(-300, 300), 100) * g.r.choice([1, 1, Fr(1, 1000), 0]) for _ in range(n)]
-            elif kind == "ang1": t += [g.angle(g.r.choice(["zero", "tiny", "below_thr", "at_thr", "above_thr", "small", "generic", "near_pi"]))]
+            elif kind == "ang1": t += [g.angle(g.r.choice(["zero", "tiny", "below_thr", "at_thr", "above_thr", "small", "smallish", "generic", "near_pi"]))]
             else:
-                th = g.angle(g.r.choice(["zero", "tiny", "below_thr", "at_thr", "above_thr", "small", "small", "generic", "generic", "near_pi"]))
+                th = g.angle(g.r.choice(["zero", "tiny", "below_thr", "at_thr", "above_thr", "small", "smallish", "smallish", "generic", "generic", "near_pi"]))
                 t += g.vec3_norm(th) if g.r.random() < 0.7 else g.vec3_any(th)
         return dict(group=gn, op=op, mask="-", iarg=0, flt=0, args=[t])
     return f
@@ -300,7 +300,7 @@ PROPS["C06"] = dict(
                                  "rjac*rjacinv=I", "rjacinv*rjac=I", "ljac*ljacinv=I", "ljacinv*ljac=I", "Adj(exp t)=ljac*rjacinv", "Adj(X^-1)*Adj(X)=I"],
                 exact=[0, 1, 2, 3, 9], qtol=1e-6, dtol=1e-5, dscale=lambda c: (1 + maxabs(c)) ** 2, gen=gen_sweep("P06")),
            dict(op="P06S", pairs=["ljac(t)=sum ad^k/(k+1)!", "Adj(exp t)=exp(ad_t)", "rjac(t)=sum (-ad)^k/(k+1)!"], scalars=("d",),
-                gen=gen_moderate_tangent("P06S"), dtol=1e-5, dscale=lambda c: (1 + maxabs(c)) ** 2)],
+                gen=gen_moderate_tangent("P06S"), dtol=1e-6, dscale=lambda c: (1 + maxabs(c)) ** 2)],
     n=dict(quick=(25, 60), thorough=(300, 1500)),
     assumptions=["model = hand-written Gallina mirror of rjac/ljac/rjacinv/ljacinv/adj/smallAdj of every group (incl. SE3::fillQ, SGal3 blocks, the numeric-inverse fallback as the exact inverse); tied to /repo by exact comparison over the rational scalar on this run's cases",
                  "proved over the reals: the algebraic identities (AdjLaws) for all groups and the inverse-Jacobian identities listed in Properties_C06.v; the series characterisation and the remaining inverse identities are tested (predicate sweep, tolerance 1e-5 relative: the property says about 1e-6) not proved",
